@@ -4,23 +4,44 @@ import json, subprocess
 
 HOOK_COMMITS = ["f60ad7f"]
 
-TECH = "deterministic simulation with fault injection: seeded search over schedules (block clock, mempool order, crashes/restarts, optimistic-execution aborts, injected bank/hook failures) on the real app.App, checked in lock-step against a math/big reference model"
+TECH = ("deterministic simulation with fault injection: seeded search over schedules (simulated block clock, "
+        "mempool order/duplication, crash-restart before/after commit, lost commit, optimistic-execution abort/hit, "
+        "injected bank and listener failures, third-party deposits) executed on real app.App replicas in one process, "
+        "in lock-step with a math/big reference model; ddmin-shrunk JSON replay files")
 
-# id -> (built?, level, design_ref, text, note, technique-suffix)
+NOTE = ("Sampling, not proof: holds on the schedules explored. Trusted base: the reference model (sim/model.go), "
+        "SDK BaseApp/bank/auth as linked, IAVL commit atomicity; CometBFT is replaced by the scheduler.")
+
+# id -> (level, design_ref, text, extra technique)
 P = {
- "C07": (True, "fault_enumeration", "DESIGN.md §6 C07",
-   "Every simulated block of every explored history must finalize without error or panic (exploration over histories, clocks, idle tails, extreme amounts); in addition, for every block whose begin-block makes bank/pool calls, a failure is injected into each call in turn on a scratch replica and FinalizeBlock must report it (fault enumeration).",
-   "Sampling of histories; enumeration is complete per sampled block. Trusted: SDK BaseApp/bank behave as in production; CometBFT stubbed.",
-   "; bank-call failure enumeration on forked replicas"),
+ "C01": ("exploration", "§6 C01", "After every block (most generated blocks carry one message) the balance of each auction's three escrow addresses is compared, in every denomination, with what the implementation's own stored records owe (offered amount / sum of required reservations of stored bids / unreleased instalments) plus exactly the third-party deposits the simulator made and the module has not swept; per-message transfers are compared with the model. Histories include rounding-prone prices, modifications, both fixed-price denominations, foreign deposits into all escrows, crash re-execution.", ""),
+ "C02": ("exploration", "§6 C02", "Per block: zero-sum of all participant/escrow balance changes plus recorded community-pool fundings, per denomination; per message: ordered transfer list equals the model's (fee in force, own reservation only, debits only from the signer); histories end with a drain phase so that every auction reaches finished/cancelled and final entitlements are compared with the model.", ""),
+ "C03": ("exploration", "§6 C03", "At every end time of every generated batch order book the settlement transfers are compared with the model's linear scan from the lowest bid price (capped demand per bidder, exact integer arithmetic); order books come from real message histories with dust bids, duplicate prices, caps changed between rounds.", ""),
+ "C04": ("exploration", "§6 C04", "Payments (reservation minus refund) per bidder at settlement are compared with the model (uniform clearing price, ceil per matched bid) and fixed-price reservations with exact ceil/floor; awkward 18-decimal prices and tiny amounts are the default scale.", ""),
+ "C05": ("exploration", "§6 C05", "From the recorded settlement transfers: total distributed <= offered, per bidder <= allow-list cap (at acceptance for each fixed-price bid, at settlement for batch) and <= requested; caps are raised/lowered between bids and rounds.", ""),
+ "C06": ("exploration", "§6 C06", "Each fixed-price bid is accepted iff the model's predicate holds; the published remainder equals offered minus accepted after every block; and the history of bid/read operations of every fixed-price auction is checked for linearizability with porcupine against a sequential (remaining, used-allowance) model, transactions of one block being concurrent operations.", "; porcupine v1.3.0 linearizability of recorded histories"),
+ "C07": ("fault_enumeration", "§6 C07", "(a) no FinalizeBlock of any explored history (idle tails after terminal auctions, skipped boundaries, extreme amounts, crash re-execution) may return an error or panic; (b) for blocks whose begin-block makes n bank/pool calls a failure is injected into each call k<n on a scratch replica forked from the pre-block disk, and FinalizeBlock must report it whatever the position of the affected auction.", "; exhaustive per-block enumeration of bank-call failures on forked replicas"),
+ "C08": ("exploration", "§6 C08", "Stored status after every block equals the model's status machine; only allowed edges, never before the instant, never later than the first block at/after it; finished/cancelled never change; bids/modifications accepted iff the model says open. Block times are biased to land on, 1 ns before and 1 ns after every start/end/release instant and to skip several.", ""),
+ "C09": ("exploration", "§6 C09", "At settlement the instalments are compared with floor(proceeds*weight) / remainder computed from the recorded proceeds transfer; every instalment must be paid exactly once, in the first block at/after its release time in which the auction is vesting, with the released flag flipping in the same block; crash re-execution and lost commits on release blocks.", ""),
+ "C10": ("exploration", "§6 C10", "An adversary submits signed MsgAddAllowedBidder transactions in every state: all must be rejected and the allow-list unchanged; every stored bid's bidder must have an allow-list entry; the process (which links the app like cmd/fundraisingd and is built without the testing link flag) must have the switch off. Build part (not simulation, reported separately in evidence): the default-built binary vs the documented link-flag build.", "; plus a default-build probe of cmd/fundraisingd"),
+ "C11": ("exploration", "§6 C11", "Modification chains by owners and strangers with new price/amount drawn from lower/equal/higher: accepted iff the model's predicate; charge equals the increase in required reservation; every bid ever seen still exists with the same auction, owner, type and denomination and never lower terms.", ""),
+ "C12": ("exploration", "§6 C12", "Cancel attempted by auctioneer and others before/at/after the start instant, after finish, twice, with third-party deposits in the escrow: accepted iff signer is the auctioneer and the model status is waiting; full refund transfer, remainder 0, terminal auctions never change again.", ""),
+ "C13": ("exploration", "§6 C13", "At every end time the model decides extend/settle on exact rationals from the previous matched count; appended end time = previous + period*24h with the period in force; number of end times <= 1+max rounds; every history is drained so each auction settles.", ""),
+ "C14": ("exploration", "§6 C14", "Shadow replicas are fed the same block log; crash-before-commit and lost-commit re-execute blocks on the same replica; optimistic execution is aborted/hit: FinalizeBlock response bytes, ordered bank-call record and app hash must be identical; the trace hash of the same schedule is compared across OS processes at GOMAXPROCS 1/4/16.", "; cross-process trace-hash self-test"),
+ "C15": ("exploration", "§6 C15", "At random moments (biased to settlement/extension/release blocks) the whole application state is exported, the module's genesis is validated, a fresh replica is initialised from it, compared collection by collection with the exporter and then fed the same subsequent blocks in lock-step (tx codes, ordered transfers, module state).", ""),
+ "C16": ("exploration", "§6 C16", "After settlement matched flags and the published matched price are compared with the model's final settlement, released flags with recorded payments; every query (by id, every status/type/auction/bidder/is_matched filter combination, random page sizes) is issued through the app's ABCI Query path and must return exactly the stored objects satisfying the request.", ""),
+ "C17": ("fault_enumeration", "§6 C17", "With L=1..3 recording listeners: every successful operation calls each listener exactly once, in order, with the values used (compared with the model) and before the announced record is stored; then for every hook method a history triggers and every listener position j<L the history is re-executed with listener j failing: message => tx rejected with nothing written, keeper op => error, settlement => FinalizeBlock error, listeners after j not called.", "; enumeration of (hook method x L x failing position)"),
+ "C18": ("exploration", "§6 C18", "Every message type is generated valid and invalid for exactly one reason (field shape, missing auction, wrong type/status/denomination, floor/fixed price, allowance, remainder, signer, funds) in every model state, plus duplicated/reordered/forged transactions and bank failures injected inside transactions: result code 0 iff the model's predicate; for every rejected tx the per-tx KV write set (store tracer) in fundraising/bank/distribution is empty.", "; per-tx KV write sets via the store tracer"),
+ "C19": ("exploration", "§6 C19", "Histories with several concurrent auctions sharing auctioneers, bidders and denominations: per-tx KV write sets must stay inside the key space and escrow/participant balances of the auction the operation names; immutable terms, bid identity, id order and counters are checked after every block; the model, which has no cross-auction coupling, must agree on every verdict.", "; per-tx KV write sets via the store tracer"),
+ "C20": ("exploration", "§6 C20", "The default-built binary must start; the command tree is enumerated from its own help output and every message/query must be reachable; seeded histories are driven through the binary (--generate-only output is decoded, compared with what was typed, signed by the simulator and executed on the simulated chain); every query command is run by the binary against the simulated node through a request/response RPC shim and its display compared with the node's state.", "; CLI-in-the-loop with the real default-built binary"),
 }
-PENDING = {}
 ALL = ["C%02d" % i for i in range(1, 21)]
 
 checks = []
 na = []
 for pid in ALL:
-    if pid in P and P[pid][0]:
-        _, level, ref, text, note, tech = P[pid]
+    if pid in P:
+        level, ref, text, tech = P[pid]
         checks.append({
             "property_id": pid,
             "quick_cmd": "./check.sh %s quick" % pid,
@@ -28,12 +49,12 @@ for pid in ALL:
             "evidence_file": "/verif/evidence/%s.json" % pid,
             "replay_cmd_template": "bin/verifsim replay {path}",
             "engine": "verifsim",
-            "level_claimed": {"category": level, "text": text, "design_ref": ref},
-            "level_note": note,
+            "level_claimed": {"category": level, "text": text, "design_ref": "DESIGN.md " + ref},
+            "level_note": NOTE,
             "technique": TECH + tech,
         })
     else:
-        na.append({"property_id": pid, "reason": "check not yet registered in this commit (machinery under construction; see DESIGN.md §6 for the planned decision procedure)"})
+        na.append({"property_id": pid, "reason": "not registered"})
 
 m = {
  "version": 1,
@@ -49,7 +70,7 @@ m = {
               "kind_free_text": "deterministic simulator: real app.App replicas in one process, seeded scheduler for block clock / mempool / crashes / faults, math/big reference model, ddmin shrinker, JSON replay files"}],
  "checks": checks,
  "not_applicable": na,
- "notes": "Every check rebuilds the simulator from /repo's working tree with -tags verif (check.sh). Exit 2 = build/harness trouble, never a VIOLATION. Known findings: /verif/known_findings.json.",
+ "notes": "Every check rebuilds the simulator from /repo's working tree with -tags verif (check.sh). Exit 2 = build/harness trouble, never a VIOLATION. Known findings and the log of repaired defects: /verif/known_findings.json. No property is not-applicable: each has a schedule, clock, fault or multi-party dimension (DESIGN.md §6 states which parts of C03/C04/C10/C20 have none).",
 }
 json.dump(m, open('/verif/MANIFEST.json', 'w'), indent=1)
 print("checks:", len(checks), "not_applicable:", len(na))
